@@ -305,6 +305,11 @@ class ExprMixin:
                     return self.repo.cls(a[1][4:])
                 if a[0] == 'fresh' and a in self.types:
                     return self.types[a]
+                # element of Wavefront.data is a Field
+                if a[0] == 'idx' and a[1][0] == 'attr' and a[1][2] == 'data':
+                    owner = self.class_of(Poly.atom(a[1][1]))
+                    if owner is not None and owner.key == 'wavefront.Wavefront':
+                        return self.repo.cls('field.Field')
         return None
 
     def load_attr(self, base, name, st, node):
